@@ -555,6 +555,10 @@ func runC01(a vh.Args, o *vh.Oracle, r *vh.Result) error {
 		if err := readJSON(a.Replay, &pc); err == nil && (len(pc.IDs) > 0 || len(pc.Seeds) > 0) {
 			return c01PlanOne(o, r, &pc)
 		}
+		var sdc c01SeedDirCase
+		if err := readJSON(a.Replay, &sdc); err == nil && sdc.Kind == "seeddir" {
+			return c01CLISeedDirOne(a, r, os.Getenv("VH_DESYNC"), &sdc)
+		}
 		var clc c01CLICase
 		if err := readJSON(a.Replay, &clc); err == nil && len(clc.Args) > 0 {
 			return c01CLIOne(a, r, os.Getenv("VH_DESYNC"), &clc)
